@@ -300,6 +300,11 @@ DECLARE ufail FUNCTION (@x, @bad) AS BEGIN
   IF INTEGER(@x) = @bad THEN TRIGGER ERROR 70 'requested failure'; END IF;
   RETURN @x;
 END;
+DECLARE udyn FUNCTION (@x) AS BEGIN
+  VAR @r;
+  EXECUTE 'SELECT %s + 1 AS dynw%s INTO @r' USING COALESCE(@x, 0), COALESCE(@x, 0);
+  RETURN @r;
+END;
 DECLARE usum AGGREGATE (cur, @m DEFAULT 1) AS BEGIN
   VAR @a := 0; VAR @x;
   WHILE @x IN cur DO
@@ -387,7 +392,7 @@ func sub(tmpl string, a string, small string) string {
 
 var numTmpl = []string{
 	"%a.v", "%a.k", "%a.id", "%a.v + %a.k", "%a.v * 2 - %a.k", "COALESCE(%a.v, 0) + 1", "ABS(%a.v)",
-	"usq(%a.v)", "LEN(%a.s)", "YEAR(%a.d)", "JSON_VALUE('[0]', %a.j)",
+	"usq(%a.v)", "udyn(%a.k)", "udyn(%a.id)", "LEN(%a.s)", "YEAR(%a.d)", "JSON_VALUE('[0]', %a.j)",
 	"CASE WHEN %a.v > 5 THEN 1 WHEN %a.v IS NULL THEN 0 ELSE -1 END", "IF(%a.k > 2, %a.v, %a.k)",
 	"%a.id % 7", "ROUND(%a.v / 3.0, 2)", "%a.k + @n", "%a.v + @@CPU", "FLOAT(%a.v) * 1.5",
 	"(SELECT MAX(c.v) FROM %S c WHERE c.k = %a.k % 5)", "(SELECT COUNT(*) FROM %S c WHERE c.id <= %a.k)",
@@ -454,6 +459,9 @@ func (x *g) noteExpr(e string) {
 	switch {
 	case strings.Contains(e, "SELECT"):
 		x.op("corr_subquery")
+	case strings.Contains(e, "udyn("):
+		// the function body parses a statement text per invocation: several goroutines are inside parser.Parse at once
+		x.op("udf_execute_dynamic_text")
 	case strings.Contains(e, "usq(") || strings.Contains(e, "ustr("):
 		x.op("udf")
 	case strings.Contains(e, "REGEXP"):
@@ -474,6 +482,9 @@ func (x *g) fn(a string) string {
 		x.op("rand")
 	case strings.Contains(e, "NOW("):
 		x.op("now")
+	case strings.Contains(e, "udyn("):
+		// the function body parses a statement text per invocation: several goroutines are inside parser.Parse at once
+		x.op("udf_execute_dynamic_text")
 	case strings.Contains(e, "ucur(") || strings.Contains(e, "utmp("):
 		x.op("udf_body")
 	default:
